@@ -21,7 +21,18 @@ import (
 	"github.com/openconfig/gnmi/zzverif/vrand"
 )
 
-const horizon = 30
+const baseHorizon = 30
+
+// horizon: enough Next calls to see every finite value out, or every
+// unbounded one well past the sync marker.
+func horizonFor(c cfgCase) int {
+	n := baseHorizon
+	for _, v := range c.vals {
+		n += int(v.repeat) + 12
+	}
+	return n
+}
+
 const drawDepth = 6
 
 type vspec struct {
@@ -150,6 +161,34 @@ func grid(tier string) []cfgCase {
 			}
 		}
 	}
+	// many values (the generator orders them by timestamp; orderings of more
+	// than a dozen entries go through different code in the standard library
+	// than short ones): n values of deterministic kinds, initial timestamps in
+	// several patterns that are NOT sorted, finite and unbounded repeats
+	ns := []int{13, 16, 22, 40}
+	if tier == "thorough" {
+		ns = []int{13, 14, 16, 19, 22, 30, 40, 64, 100}
+	}
+	detKinds := []int{16, 15, 5, 9, 11, 13, 8}
+	patterns := [][]int64{{1000, 500}, {5, 0, 1}, {3, 3, 3, 9}, {0, 1, 2, 3, 4, 5, 6}, {7, 7}, {9, 8, 7, 6, 5, 4, 3, 2, 1}}
+	for _, n := range ns {
+		for pi, pat := range patterns {
+			for _, rep := range []int32{1, 2, 0} {
+				for _, d := range [][2]int64{{1, 1}, {0, 0}} {
+					// unbounded values: only patterns whose timestamps lie within 9 of
+					// each other, so that the sync marker falls inside the horizon
+					if rep == 0 && (d[0] == 0 || (pi != 1 && pi != 2)) {
+						continue
+					}
+					var vs []vspec
+					for i := 0; i < n; i++ {
+						vs = append(vs, vspec{detKinds[i%len(detKinds)], pat[i%len(pat)], d[0], d[1], rep, 0})
+					}
+					out = append(out, cfgCase{vs, 1})
+				}
+			}
+		}
+	}
 	return out
 }
 
@@ -166,7 +205,7 @@ func runWith(c cfgCase, vals []*fpb.Value) ([]*fpb.Value, bool, error) {
 	q := queue.New(false, c.seed, vals)
 	q.Add(&fpb.Value{Timestamp: &fpb.Timestamp{Timestamp: q.Latest()}, Repeat: 1, Value: &fpb.Value_Sync{Sync: 1}})
 	var out []*fpb.Value
-	for i := 0; i < horizon; i++ {
+	for i, horizon := 0, horizonFor(c); i < horizon; i++ {
 		v, err := q.Next()
 		if err != nil {
 			return out, false, err
@@ -290,7 +329,7 @@ func check(c cfgCase, seq []*fpb.Value, ended bool, err error) []seqmc.Violation
 		return vio("sync-missing", "%v: stream ended without a sync marker", c)
 	}
 	if progress && syncAt < 0 {
-		return vio("sync-missing", "%v: every value makes progress but no sync marker within %d emissions", c, horizon)
+		return vio("sync-missing", "%v: every value makes progress but no sync marker within %d emissions", c, horizonFor(c))
 	}
 	return nil
 }
